@@ -1877,7 +1877,7 @@ pub fn run(a: &Args, rep: &mut Report, focus: &str) {
     crate::trapemu::install();
     let mut r = Rng::derive(a.seed, &format!("paging-{}", focus), a.shard);
     let under_miri = cfg!(miri);
-    let histories = if under_miri { a.get_u64("histories", 2) } else { a.budget(if focus == "c02" { 600 } else { 1500 }, if focus == "c02" { 120_000 } else { 250_000 }) };
+    let histories = if under_miri { a.get_u64("histories", 2) } else { a.budget(if focus == "c02" { 600 } else { 1500 }, if focus == "c02" { 60_000 } else { 120_000 }) };
     let kinds: Vec<Kind> = match a.get("impl") {
         Some("mapped") => vec![Kind::Mapped],
         Some("offset") => vec![Kind::Offset],
